@@ -255,6 +255,8 @@ pub(crate) enum ExprErrorKind {
     EmptyRandomRange(i64),
     #[error("Division by zero")]
     DivisionByZero,
+    #[error("The variable {0} has not been assigned a value")]
+    UnassignedVariable(String),
     #[error("The function {0} is not implemented")]
     FunctionNotImplemented(&'static str),
 }
